@@ -256,6 +256,11 @@ func checkC17(c C17Case, r *Rec) *Violation {
 			}
 		}
 	}
+	// the same list object again after the caller changed one element in place (and a shorter
+	// window of the same backing array): the answer follows the contents, not the identity
+	if v := c17InPlace(c, r); v != nil {
+		return v
+	}
 	la, lb := listLen(c.A.X), listLen(c.B.X)
 	total := 0
 	if la > 0 {
@@ -285,6 +290,75 @@ func checkC17(c C17Case, r *Rec) *Violation {
 		r.NonTrivial(src+fmt.Sprint(c.A, c.B), func() interface{} {
 			return map[string]interface{}{"expr": clip(src, 160), "len_a": la, "len_b": lb, "expected": refString(want, werr), "origin": c.Origin}
 		})
+	}
+	return nil
+}
+
+func c17InPlace(c C17Case, r *Rec) *Violation {
+	f, _ := m.Builtin(c.Op)
+	check := func(a, b interface{}, what string) *Violation {
+		want, werr := f([]interface{}{a, b})
+		cc := eval.NewConfig()
+		cc.VariableKeyMap["va"], cc.VariableKeyMap["vb"] = 1, 2
+		for _, mask := range []int{0, 15} {
+			for i, o := range allOpts {
+				cc.CompileOptions[o] = mask&(1<<i) != 0
+			}
+			e, co := SafeCompile(cc, "("+c.Op+" va vb)")
+			if co.Panic != nil || co.Err != nil {
+				return Violf("C17: compile failed: %v", co)
+			}
+			o := Safe(func() (eval.Value, error) { return e.Eval(&eval.Ctx{VariableFetcher: mapFetcher{"va": a, "vb": b}}) })
+			if !Agrees(o, want, werr) {
+				return Violf("C17: %s on a list the caller owns, %s: engine=%v expected=%s\na=%s\nb=%s", c.Op, what, o, refString(want, werr), clip(renderAny(a), 500), clip(renderAny(b), 500))
+			}
+		}
+		return nil
+	}
+	switch b := c.B.X.(type) {
+	case []int64:
+		if len(b) < 2 {
+			return nil
+		}
+		own := append([]int64(nil), b...) // one backing array for the whole sequence
+		a := c.A.X
+		if v := check(a, own, "first look"); v != nil {
+			return v
+		}
+		k := len(own) / 2
+		old := own[k]
+		own[k] = 987654321 // a value that was not in the list
+		probe := interface{}(int64(987654321))
+		if c.Op == "overlap" {
+			probe = []int64{5, 987654321}
+		}
+		if v := check(probe, own, "after one element was replaced in place by the probed value"); v != nil {
+			return v
+		}
+		if c.Op == "in" {
+			if v := check(old, own[:k], "a shorter window of the same array, probing a value that is now outside"); v != nil {
+				return v
+			}
+		}
+		r.Class("in-place-update-sequence")
+	case []string:
+		if len(b) < 2 {
+			return nil
+		}
+		own := append([]string(nil), b...)
+		if v := check(c.A.X, own, "first look"); v != nil {
+			return v
+		}
+		k := len(own) / 2
+		own[k] = "fresh-value"
+		probe := interface{}("fresh-value")
+		if c.Op == "overlap" {
+			probe = []string{"zz", "fresh-value"}
+		}
+		if v := check(probe, own, "after one element was replaced in place by the probed value"); v != nil {
+			return v
+		}
+		r.Class("in-place-update-sequence")
 	}
 	return nil
 }
